@@ -195,6 +195,22 @@ func runC05(t *testing.T, e *worlds.Env, tier string) (bool, any) {
 		return tw.Done
 	}, func() {
 		if e.S.Capped {
+			// bounded liveness: every timeout, client linger and idle expiry of this world is far
+			// below the simulated-time cap; a connection goroutine still alive at that cap never
+			// left its matching phase (or never got out of a deadline call)
+			hn := "srv.1"
+			if udp {
+				hn = "usrv.2"
+			}
+			_, started := e.S.StartAt[hn]
+			_, exited := e.S.ExitAt[hn]
+			if e.S.CappedBy == "time" && started && !exited && time.Duration(e.S.Stats["fault_stall"])*2100*time.Millisecond < 5*time.Minute {
+				sig := "tcp"
+				if udp {
+					sig = "udp"
+				}
+				e.S.Fail("C05/never-ended", sig, "the connection was accepted at %v with a matching timeout of %v; at the simulated-time cap (%v) its goroutine %s is still alive and matching has not ended", e.S.StartAt[hn], timeout, e.S.SimElapsed, hn)
+			}
 			return
 		}
 		// observations
